@@ -63,6 +63,8 @@ def supervise(driver, specs_file, out_file, n_runs):
                 f.write(json.dumps({"ev": "Hostile", "cls": (begun or {}).get("cls", "?"), "r": 3, "n": 0, "len": 0, "panic": False, "msg": err[-200:], "us": 0, "alloc": 0, "died": how, "hist": [], "done": False}) + "\n")
             f.write(json.dumps({"ev": "RunDone", "run": died_run}) + "\n")
         start = died_run + 1
+        if len(deaths) >= 40:
+            break      # enough evidence; every further hang costs the watchdog interval
     return deaths
 
 
